@@ -184,6 +184,7 @@ type Run struct {
 	// store-level runs: phase currently executing, and whether an injected disk fault fired in the second one
 	curPhase      int
 	reqReuse      map[string]*reuseSlot
+	preCorrupt    map[string][]byte // file content before the harness first modified it at rest (until the backend rewrites it)
 	faultInPhase2 bool
 	OpenErr       string
 	DiskEnd       map[string][]byte
@@ -558,6 +559,9 @@ func (h diskHook) DiskOp(op *simos.Op) simos.Decision {
 	}
 	g := r.Sim.Yield("disk:" + op.Kind)
 	r.mu.Lock()
+	if op.Kind == "rename" || op.Kind == "remove" {
+		delete(r.preCorrupt, op.Path)
+	}
 	n := r.diskCnt[op.Kind]
 	r.diskCnt[op.Kind]++
 	anyN := r.diskCnt["any"]
@@ -631,6 +635,9 @@ func (r *Run) applyPartialWrite(op *simos.Op, k int) {
 
 func (h diskHook) Wrote(p string, content []byte) {
 	r := h.r
+	r.mu.Lock()
+	delete(r.preCorrupt, p)
+	r.mu.Unlock()
 	if r.Scn.Backend == "fsenc" {
 		r.mu.Lock()
 		if r.cipherSeen == nil {
@@ -1012,6 +1019,14 @@ func (r *Run) admin(g *kit.Gor, op *Op) {
 		}
 		p := names[op.AdminArg%len(names)]
 		arg := op.AdminArg / 7
+		r.mu.Lock()
+		if r.preCorrupt == nil {
+			r.preCorrupt = map[string][]byte{}
+		}
+		if _, seen := r.preCorrupt[p]; !seen {
+			r.preCorrupt[p] = append([]byte{}, files[p]...) // what the backend had written
+		}
+		r.mu.Unlock()
 		_ = simos.Corrupt(p, func(b []byte) []byte {
 			if len(b) == 0 {
 				return []byte{1}
@@ -1031,7 +1046,19 @@ func (r *Run) admin(g *kit.Gor, op *Op) {
 		// which key lives in that file (flat names are base64url of the key); unknown layouts are simply not attributed
 		if kb, err := base64.RawURLEncoding.DecodeString(path.Base(p)); err == nil {
 			r.mu.Lock()
-			r.Corrupted = append(r.Corrupted, corruptRec{Path: p, Key: string(kb), Seq: seq})
+			if now, ok := simos.Snapshot()[p]; ok && r.preCorrupt[p] != nil && bytes.Equal(now, r.preCorrupt[p]) {
+				// a second modification restored the bytes the backend wrote (append one byte, cut one byte):
+				// the file is not modified any more
+				kept := r.Corrupted[:0]
+				for _, c := range r.Corrupted {
+					if c.Path != p {
+						kept = append(kept, c)
+					}
+				}
+				r.Corrupted = kept
+			} else {
+				r.Corrupted = append(r.Corrupted, corruptRec{Path: p, Key: string(kb), Seq: seq})
+			}
 			r.mu.Unlock()
 		}
 	}
